@@ -99,3 +99,21 @@ check("C06",
       "uninterpolatable schedule gives 1 and runs nothing; no hook configured does nothing. Compared with robsd-exec/robsd-hook (ASan) using a probe command.",
       "Trusted: Lean kernel; execve/wait semantics; the config values fed to the model are computed by the harness for the variables used; harness.",
       "DESIGN.md#c06")
+
+check("C16",
+      "Lean 4 proof: take/drop identities over the newest-first listing; differential run of robsd-clean under bash on generated trees (before/after diff)",
+      "Proof: Clean.cleaned models robsd-clean/purge on the listing robsd-ls gives (C15). Theorems: retention 0 removes nothing; only listed invocations are removed "
+      "and never the running one; not running: exactly listing.drop n goes; running: the running one plus the newest n-1 others stay; the number kept is min(n, total); "
+      "the removed ones are a suffix (the oldest); attic names YYYY/MM/DD.X are distinct for distinct invocations; whitelist of preserved files. The real "
+      "robsd-clean runs under bash on generated roots; the tree before/after is compared with the property (kept set, attic content, nothing else touched) and the model.",
+      "Trusted: Lean kernel; bash/shims of DESIGN 3.4 (notably find -delete and stat -f); cp -p/rm; harness.",
+      "DESIGN.md#c16")
+
+check("C17",
+      "Lean 4 proof: freshness of build_id for every directory set, freshness invariant of log_id over attempt histories; differential run of util.sh under bash",
+      "Proof: Clean.buildId/logId model util.sh build_id/log_id. build_id_fresh: for EVERY set of existing directory names the new name is not among them "
+      "(decimal render/parse round trip proved). log_id_fresh: when the earlier attempts of a step are base, base.1 .. base.(k-1), the next name is base.k (base for "
+      "the first), is not an existing file and preserves the scheme, for names with '/' mapped to '-'. Compared with util.sh under bash on generated roots "
+      "(gaps, more than nine per day, attic) and attempt sequences; freshness checked directly on the real output.",
+      "Trusted: Lean kernel; bash/find/sed/sort for ksh and BSD userland; date(1); harness.",
+      "DESIGN.md#c17")
